@@ -164,18 +164,18 @@ class HashClient:
 
     def _retry_dead(self) -> None:
         current_time = time.time()
-        ldc = self._last_dead_check_time
-        # We have reached the retry timeout
-        if current_time - ldc > self.dead_timeout:
-            candidates = []
-            for server, dead_time in self._dead_clients.items():
-                if current_time - dead_time > self.dead_timeout:
-                    candidates.append(server)
-            for server in candidates:
-                logger.debug("bringing server back into rotation %s", server)
-                self.add_server(server)
-                self._dead_clients.pop(server, None)
-            self._last_dead_check_time = current_time
+        # Every dead server is due back once its own dead_timeout is over
+        # (checking only once per dead_timeout made a server wait up to twice
+        # as long, and longer still when it was given up late).
+        candidates = []
+        for server, dead_time in self._dead_clients.items():
+            if current_time - dead_time > self.dead_timeout:
+                candidates.append(server)
+        for server in candidates:
+            logger.debug("bringing server back into rotation %s", server)
+            self.add_server(server)
+            self._dead_clients.pop(server, None)
+        self._last_dead_check_time = current_time
 
     def _get_client(self, key):
         # If key is tuple use first item as server key
